@@ -17,8 +17,8 @@ CLAIMS = {
         text="Proof: every in-place writer, appending writer, length function and buffer reader of thrift.Binary is verified against one written-down Thrift "
              "Binary encoding predicate (big-endian words, 4-byte length prefix + bytes) for all values, all buffer contents and all buffer lengths; "
              "writers additionally against their frame (only the advertised bytes are written). Unbounded: parameters are symbolic.",
-        note="The stream writer/reader halves are proved against the bufiox.Reader / bufiox.Writer interface contracts (ghost stream), i.e. for every fragmentation at once; that DefaultReader/DefaultWriter "
-             "refine those contracts is the business of C04/C05. " + TRUST,
+        note="The stream writer/reader halves are proved against the bufiox.Reader / bufiox.Writer interface contracts (ghost stream), i.e. for every fragmentation at once; the proofs that DefaultReader/DefaultWriter "
+             "refine those contracts (C04/C05) are run as part of this check too. " + TRUST,
         design="5 C01"),
     "C02": dict(
         text="Proof: Binary.Skip / skipType / skipstr return exactly the length given by the Thrift Binary grammar (internal/verifspec ValLenD, an executable "
